@@ -192,8 +192,9 @@ class Check:
             "wall_s": round(wall, 3),
             "violations": len(viol),
         }
-        with open(os.path.join(VERIF, "evidence", f"{self.prop}.json"), "w") as fh:
-            json.dump(ev, fh, indent=1)
+        if os.environ.get("AGILINT_NO_EVIDENCE") != "1":  # scratch-copy runs of the seed regression (tools/run_all_seeds_par.sh) leave the evidence of /repo alone
+            with open(os.path.join(VERIF, "evidence", f"{self.prop}.json"), "w") as fh:
+                json.dump(ev, fh, indent=1)
         print(
             f"[{self.prop}] tier={self.tier} rules={len(self.rules)} obligations={len(self.obs)} "
             f"discharged={len(disch)} known={len(known)} violated={len(viol)} wall={wall:.2f}s"
